@@ -8,6 +8,11 @@ var commonTrusted = []string{
 
 func init() {
 	register(PropSpec{
+		ID:    "C01",
+		Title: "Layer merge follows the documented merge rules for every parent/child pair",
+		Rules: []func(*Prog, *Result){ruleC01Kind, ruleC01Map, ruleC01List, ruleC01Match, ruleDeepClone},
+	})
+	register(PropSpec{
 		ID:    "C09",
 		Title: "Evaluation is deterministic",
 		Rules: []func(*Prog, *Result){ruleMapRanges, ruleSortedMap, ruleGlobals, ruleNondetSources},
